@@ -62,6 +62,74 @@ class FakeTransport:
         return default
 
 
+class FlowTransport(FakeTransport):
+    """a transport that signals pause_writing during a chosen write, like asyncio's when its buffer fills"""
+
+    def __init__(self, *a, **kw):
+        super().__init__(*a, **kw)
+        self.limit = None        # pause is signalled during write number limit+1 from now
+        self.protocol = None
+        self.limits_set = []
+
+    def set_write_buffer_limits(self, high=None, low=None):
+        self.limits_set.append([high, low])
+
+    def write(self, d):
+        super().write(d)
+        if self.limit is not None and not self.closed:
+            if self.limit == 0:
+                self.limit = None
+                self.protocol.pause_writing()
+            else:
+                self.limit -= 1
+
+
+async def run_flow(loop: VLoop, c):
+    """drive the response write pump: case = {resp, evs: [["s"] | ["lim", k] | ["rw"] | ["pw"] | ["l"]]}"""
+    from nauyaca.server.protocol import GeminiServerProtocol
+
+    log = {"h": 0, "exc": []}
+
+    def h(req):
+        log["h"] += 1
+        return mkresp(c["resp"])
+
+    p = GeminiServerProtocol(h, None, None)
+    t = FlowTransport()
+    t.protocol = p
+    loop.set_exception_handler(lambda lp, cx: log["exc"].append(str(cx.get("exception") or cx.get("message"))[:120]))
+    p.connection_made(t)
+    lost = False
+    lens = []
+    for e in c["evs"]:
+        try:
+            if e[0] == "s":
+                if not t.closed and not lost:
+                    p.data_received(b"gemini://h/flow\r\n")
+            elif e[0] == "lim":
+                t.limit = e[1]
+            elif e[0] == "rw":
+                if not lost:
+                    p.resume_writing()
+            elif e[0] == "pw":
+                if not lost:
+                    p.pause_writing()
+            elif e[0] == "l":
+                if not lost:
+                    lost = True
+                    p.connection_lost(None)
+        except Exception as ex:  # noqa: BLE001
+            log["exc"].append(f"{type(ex).__name__}: {ex}"[:120])
+        await _drain()
+        lens.append(len(t.acts))
+    obs = {"acts": [(f"w{len(a[1]) // 2}" if a[0] == "w" else "close") for a in t.acts], "raw": "".join(a[1] for a in t.acts if a[0] == "w"),
+           "dropped": len(t.dropped), "h": log["h"], "exc": list(log["exc"]), "lens": lens, "limits": t.limits_set[:2]}
+    loop.set_exception_handler(lambda lp, cx: None)
+    if p.timeout_handle is not None:
+        p.timeout_handle.cancel()
+    return obs
+
+
 def mkresp(r):
     from nauyaca.protocol.response import GeminiResponse
 
